@@ -572,6 +572,12 @@ def rule_f(ctx: Context, R: Reporter):
                                 same = isinstance(a0, ast.Name) and a0.id == rows.id and {id(d) for d in fl.reaching(ds[0].node, a0.id)} == {id(d) for d in fl.reaching(nd, rows.id)}
                                 ok = same
                                 why = "" if same else f"predict() is given `{unparse(a0) if a0 is not None else '?'}`, the factory `{rows.id}`"
+                    if isinstance(lab, ast.Call) and isinstance(rows, ast.Name) and isinstance(lab.func, ast.Attribute) and lab.func.attr == "predict" \
+                            and cl in [t for t in ctx.res.expr_types(m, lab.func.value) if isinstance(t, ClassInfo)]:
+                        # predict(rows) written in the call itself
+                        a0 = lab.args[0] if lab.args else None
+                        ok = isinstance(a0, ast.Name) and a0.id == rows.id
+                        why = "" if ok else f"predict() is given `{unparse(a0) if a0 is not None else '?'}`, the factory `{rows.id}`"
                     R.check("C14.f", f"{m.short}: factory labels are predict() of the shared clusterer on the rows passed with them", ok, m, c,
                             msg=f"{m.short}: `{unparse(c)[:60]}`: {why}; labels that are not predict(u) of the fitted clusterer (e.g. the training labels of fit(), which "
                                 f"need not agree with predict()) make mode k describe particles that mutation will not assign to k", key=f"factory-labels:{m.short}")
